@@ -50,6 +50,8 @@ type State struct {
 	pathID  int
 	trace   []string
 	noClosed bool
+	unknownHavoc bool // a call without contract (or `modifies *`) happened: the frame cannot be established
+	freshEpochs map[int]*freshEpoch // epochs created by `modifies fresh`: untouched arrays keep their old content at old objects
 	prevVals map[*ssa.BasicBlock]map[string]Term // loop head -> values of named variables right after the havoc
 	epoch   int // >0 after a havoc-all: untouched heap variables are unknown, not initial
 }
@@ -59,7 +61,7 @@ func newState() *State {
 		vals: map[ssa.Value]Term{}, locs: map[ssa.Value]Loc{}, tuples: map[ssa.Value][]Term{},
 		iters: map[ssa.Value]*iterState{}, closures: map[string]closureInfo{}, heap: map[string]string{},
 		env: map[string]ssa.Value{}, envAddr: map[string]bool{}, inLoop: map[*ssa.BasicBlock]bool{},
-		prevVals: map[*ssa.BasicBlock]map[string]Term{},
+		prevVals: map[*ssa.BasicBlock]map[string]Term{}, freshEpochs: map[int]*freshEpoch{},
 	}
 }
 
@@ -100,6 +102,11 @@ func (s *State) fork() *State {
 		n.inLoop[k] = v
 	}
 	n.epoch = s.epoch
+	n.unknownHavoc = s.unknownHavoc
+	n.freshEpochs = make(map[int]*freshEpoch, len(s.freshEpochs))
+	for k, v := range s.freshEpochs {
+		n.freshEpochs[k] = v
+	}
 	n.prevVals = make(map[*ssa.BasicBlock]map[string]Term, len(s.prevVals))
 	for k, v := range s.prevVals {
 		n.prevVals[k] = v
@@ -136,6 +143,15 @@ func (s *State) heapGet(v *Verifier, name, sort string) string {
 	sym := fmt.Sprintf("%s_E%d", smtIdent(name), s.epoch)
 	s.declare(sym, sort)
 	s.heap[name] = sym
+	if fe, ok := s.freshEpochs[s.epoch]; ok {
+		// `modifies fresh`: only objects allocated by the callee may differ
+		old := fe.snap.get(v, s, name, sort)
+		if strings.HasPrefix(sort, "(Array Int ") && !strings.HasPrefix(name, "GH_") && !strings.HasPrefix(name, "G_") {
+			s.assume("(forall ((r!e Int)) (=> (< r!e " + fe.oldAlloc + ") (= (select " + sym + " r!e) (select " + old + " r!e))))")
+		} else {
+			s.assume(eq(sym, old))
+		}
+	}
 	s.closedAssume(v, name, sym)
 	return sym
 }
@@ -168,6 +184,11 @@ func (s *State) closedAssume(v *Verifier, name, sym string) {
 	}
 }
 
+type freshEpoch struct {
+	snap     *heapSnap
+	oldAlloc string
+}
+
 type heapSnap struct {
 	heap  map[string]string
 	epoch int
@@ -182,6 +203,7 @@ func (s *State) snapshot() *heapSnap {
 }
 
 // get returns the symbol a heap variable had at snapshot time; symbols first needed after the snapshot are declared in cur.
+// (Snapshots are shared between forked states, so nothing is cached in the snapshot.)
 func (h *heapSnap) get(v *Verifier, cur *State, name, sort string) string {
 	if sym, ok := h.heap[name]; ok {
 		return sym
@@ -192,14 +214,24 @@ func (h *heapSnap) get(v *Verifier, cur *State, name, sort string) string {
 	v.registerHeap(name, sort)
 	sym := fmt.Sprintf("%s_E%d", smtIdent(name), h.epoch)
 	decl := "(declare-const " + sym + " " + sort + ")"
+	found := false
 	for _, c := range cur.consts {
 		if c == decl {
-			h.heap[name] = sym
-			return sym
+			found = true
+			break
 		}
 	}
-	cur.declare(sym, sort)
-	h.heap[name] = sym
+	if !found {
+		cur.declare(sym, sort)
+		if fe, ok := cur.freshEpochs[h.epoch]; ok {
+			old := fe.snap.get(v, cur, name, sort)
+			if strings.HasPrefix(sort, "(Array Int ") && !strings.HasPrefix(name, "GH_") && !strings.HasPrefix(name, "G_") {
+				cur.assume("(forall ((r!e Int)) (=> (< r!e " + fe.oldAlloc + ") (= (select " + sym + " r!e) (select " + old + " r!e))))")
+			} else {
+				cur.assume(eq(sym, old))
+			}
+		}
+	}
 	// if the current state is still in the same epoch and has not touched the variable, it has the same value
 	if cur.epoch == h.epoch {
 		if _, touched := cur.heap[name]; !touched {
